@@ -44,6 +44,7 @@ class Rec:
         self._fh = open(out_path, "a", encoding="utf-8")
         self._cur = out_path + ".cur"
         self.t0 = time.time()
+        self.deadline = None  # set by the worker: generation stops (gracefully) when 70 % of the shard's timeout is used
 
     # -- bookkeeping
     def begin(self, case):
@@ -131,6 +132,16 @@ class Rec:
             pass
 
 
+def budgeted(iterable, rec):
+    """Yield from ``iterable`` until the shard's time budget is used up.  A loaded machine then explores less (the counters
+    and floors say how much) instead of losing the whole shard to the watchdog, which would be inconclusive."""
+    for x in iterable:
+        if rec.deadline is not None and time.time() > rec.deadline:
+            rec.count("generation_stopped_on_time_budget")
+            return
+        yield x
+
+
 def _h(key):
     if not isinstance(key, (str, bytes)):
         key = json.dumps(key, sort_keys=True, default=repr)
@@ -170,6 +181,8 @@ def _worker_main(check, spec_path):
     if spec.get("dump_after"):
         faulthandler.dump_traceback_later(spec["dump_after"], exit=False, file=sys.__stderr__)
     rec = Rec(spec["out"], spec["shard"])
+    if spec.get("timeout"):
+        rec.deadline = time.time() + 0.7 * float(spec["timeout"])
     try:
         if spec.get("replay") is not None:
             check.run_case(spec["replay"], rec)
@@ -310,6 +323,7 @@ def _parent(check, args):
                 "shard": dict(sh, tier=tier, seed=seed, shard_index=i, nshards=len(shards)),
                 "out": os.path.join(outdir, f"shard{i:03d}.jsonl"),
                 "dump_after": max(30, int(sh.get("timeout", default_to)) - 15),
+                "timeout": sh.get("timeout", default_to),
             }
             if replay_case is not None:
                 spec["replay"] = replay_case
